@@ -55,6 +55,7 @@ class Plan:
         self.step = 0
         self.steps = []
         self.fired = 0
+        self.probes = []
 
     def hit(self, name):
         """Called at every intercepted I/O step.  Returns 'short' for a short write; raises for faults."""
@@ -122,6 +123,8 @@ class OsProxy:
         return os.chmod(*a, **k)
 
     def replace(self, a, b):
+        # what a concurrent reader would see at this instant (before the attempt)
+        self._p.probes.append(os.path.exists(b))
         self._p.hit("replace")
         return os.replace(a, b)
 
@@ -265,6 +268,8 @@ def inproc_case(caller, size, old, at, kind, err, times, ref, sess: Session, ste
             sess.count("inprocess_faults_fired")
             sess.count("fault_fired:" + kind)
             sess.nontrivial.add(chash(case))
+        if old and plan.probes and not all(plan.probes) and caller in ("bytes", "text", "json", "rewrite"):
+            sess.violation("destination-missing-during-replace-retries", case, {"probes": plan.probes[:8], "outcome": outcome})
         dests = DESTS[caller]
         for i, name in enumerate(dests):
             got = after.get(name)
@@ -300,7 +305,7 @@ def inproc_enumerate(caller, size, old, tier, sess: Session, rng):
     steps = inproc_case(caller, size, old, None, None, None, 1, ref, sess)
     sess.seen("io_step_sequences", (caller, tuple(steps)))
     n = len(steps)
-    faults = [("errno", e, 1) for e in ERRNOS] + [("kill", None, 1), ("short", None, 1)] + [("transient", e, t) for e in ("EACCES", "EPERM", "EBUSY") for t in (1, 3)]
+    faults = [("errno", e, 1) for e in ERRNOS] + [("kill", None, 1), ("short", None, 1)] + [("transient", e, t) for e in ("EACCES", "EPERM", "EBUSY") for t in (1, 3, 10 ** 6)]
     for at in range(1, n + 1):
         for kind, err, times in faults:
             if kind == "short" and steps[at - 1] != "write":
